@@ -518,3 +518,6 @@ dec_to_dec!(c13_dec128_p30s6_to_dec128_p38s6, Decimal128Type, PhysicalI128, i128
 dec_to_dec!(c13_dec64_p5s2_to_dec64_p5s2, Decimal64Type, PhysicalI64, i64, decimal64, Decimal64Type, PhysicalI64, i64, decimal64, 5, 2, 5, 2);
 // @h name=c13_dec64_p12s3_to_dec64_p12s1 props=C13,C12 tier=thorough
 dec_to_dec!(c13_dec64_p12s3_to_dec64_p12s1, Decimal64Type, PhysicalI64, i64, decimal64, Decimal64Type, PhysicalI64, i64, decimal64, 12, 3, 12, 1);
+
+// (float -> decimal harnesses were written and removed: CBMC's model of f64::round / the float->int
+// NumCast produced counterexamples that pass natively - see DESIGN.md section 6.)
